@@ -109,9 +109,11 @@ def gen_scenario(rng, tier, knobs):
             d['timeout'] = 0.5
             t['runtime'] = rng.choice([0.1, 3.0])
         if rng.random() < knobs.get('sd_share', 0.4):
+            rich = knobs.get('rich_sds', False) or (
+                bool(knobs.get('rich_share')) and
+                rng.random() < knobs['rich_share'])
             t['ins'], t['outs'] = gen_sds(rng, i, rng.randint(0, 3),
-                                          rng.randint(0, 2),
-                                          knobs.get('rich_sds', False))
+                                          rng.randint(0, 2), rich)
         if rng.random() < knobs.get('soe_share', 0.1):
             d['stage_on_error'] = True
         tasks.append(t)
